@@ -170,7 +170,13 @@ fn random_job(ctx: &Ctx, job: usize, iters: u64, max_names: usize, depth: u32) -
         }
         let ast = gen::gen_ast(&mut rng, &cfg);
         let style = if rng.chance(1, 5) { Style::Plain } else { Style::Fancy };
-        let text = gen::render(&ast, &mut rng, style);
+        let mut text = gen::render(&ast, &mut rng, style);
+        if it % 500 == 7 {
+            // beyond any I/O buffer: pad with a big comment / whitespace in front of or behind the formula
+            let big = 9_000 + rng.usize(40_000);
+            text = if rng.chance(1, 2) { format!("\"{}\"\n{}", "pad ".repeat(big / 4), text) } else { format!("{}{}\"tail\"", text, "\n ".repeat(big / 2)) };
+            st.bump("large_texts");
+        }
         check_text(&mut st, &text, "random");
     }
     st
